@@ -40,7 +40,8 @@ def trimmed (ls : List PatchLine) (pf sf : Nat) : List PatchLine :=
 
 /-- `hunk_matches_starting_from_line(line)` -/
 def hunkMatchesAt (content : List Line) (h : Hunk) (iw : Bool) (pf sf : Nat) (line : Nat) : Bool :=
-  if line + oldLineCount h.lines > content.length then false
+  -- all old lines must fit inside the file, other than those at the end of the hunk which fuzz is ignoring (D99)
+  if line + oldLineCount h.lines > content.length + sf then false
   else matchFrom content iw (trimmed h.lines pf sf) (line + pf)
 
 /-- positions probed for one fuzz value, in the code's order: forward from `searchStart` to the end of
